@@ -28,6 +28,9 @@ type Out struct {
 	samples []string
 	fails   int
 	failKeys map[string]int
+	// rename[0] != "": an op line starting with rename[0] is written with that prefix replaced by rename[1] (engine `gammg` is engine
+	// `gamm` with more op lines; the Lean driver routes on the first word)
+	rename [2]string
 }
 
 func NewOut(dir string) *Out {
@@ -47,6 +50,9 @@ func NewOut(dir string) *Out {
 
 // Emit records one op line and the implementation's observation.
 func (o *Out) Emit(op string, obs string, nontrivial bool) {
+	if o.rename[0] != "" && strings.HasPrefix(op, o.rename[0]) {
+		op = o.rename[1] + op[len(o.rename[0]):]
+	}
 	o.ops.WriteString(op)
 	o.ops.WriteByte('\n')
 	o.impl.WriteString(obs)
